@@ -2,14 +2,14 @@
 # usage: tools/seedin.sh Cxx [n]  — take the deliverables of seeder worktree /tmp/seed-Cxx into /verif/seeded/S-Cxx-n,
 # remove the worktree, and confirm + run the check with tools/seedcheck.sh
 set -u
-p=$1; n=${2:-1}; sid=S-$p-$n; d=/verif/seeded/$sid; src=/tmp/seed-$p/SEED
+p=$1; n=${2:-1}; sid=S-$p-$n; d=/verif/seeded/$sid; src=/tmp/seed${R:-}-$p/SEED
 mkdir -p $d
 cp $src/patch.diff $src/meta.json $d/ || exit 3
 demo=$(ls $src/*.go.txt 2>/dev/null | head -1)
 [ -z "$demo" ] && demo=$(ls $src/*_test.go 2>/dev/null | head -1)
 cp "$demo" $d/zz_seed_demo_test.go
 # find where the live demo test lives in the worktree (package dir) and the test names
-live=$(cd /tmp/seed-$p && git status --porcelain | grep '_test.go' | awk '{print $2}' | grep -v '^SEED/' | head -1)
+live=$(cd /tmp/seed${R:-}-$p && git status --porcelain | grep '_test.go' | awk '{print $2}' | grep -v '^SEED/' | head -1)
 pkg=$(dirname "${live:-./x}")
 python3 - "$d" "$pkg" <<'PY'
 import json,re,sys
@@ -21,5 +21,5 @@ m.update({'demo_file':'zz_seed_demo_test.go','demo_pkg':pkg if pkg not in ('','.
 json.dump(m,open(d+'/meta.json','w'),indent=1)
 print('demo tests:',names,'pkg:',pkg)
 PY
-git -C /repo worktree remove --force /tmp/seed-$p
+git -C /repo worktree remove --force /tmp/seed${R:-}-$p
 /verif/tools/seedcheck.sh $sid $p 2>&1 | tail -5 | cut -c1-400
